@@ -23,6 +23,7 @@ import (
 
 	"verif/h/kit"
 	"verif/h/mc"
+	sk "verif/h/storekit"
 )
 
 type params struct {
@@ -155,6 +156,10 @@ func harnessError(r *mc.Report, format string, args ...any) {
 }
 
 func runUnit(r *mc.Report, base *mc.Ctx, u mc.Unit) {
+	if _, ok := u.Params.(snapParams); ok {
+		mc.Explore(r, base, -1, func(c *mc.Ctx) { runSnapshot(c, u) })
+		return
+	}
 	p := u.Params.(params)
 	mc.BFS(r, base, mc.BFSModel{MaxDepth: p.Depth, Build: func(c *mc.Ctx, h []string) (string, []string) {
 		res := pool.do(request{P: p, H: h})
@@ -177,6 +182,10 @@ func runUnit(r *mc.Report, base *mc.Ctx, u mc.Unit) {
 
 // replay executes the recorded history in this process (one execution).
 func replay(c *mc.Ctx, u mc.Unit, v mc.Violation) {
+	if _, ok := u.Params.(snapParams); ok {
+		runSnapshot(c, u)
+		return
+	}
 	if _, _, err := execute(c, u.Params.(params), v.History); err != nil {
 		c.Obs("HARNESS ERROR %v", err)
 	}
@@ -190,11 +199,11 @@ func main() {
 	}
 	mc.Main(mc.Spec{
 		ID: "C15", Level: "model_checking",
-		Units:   units,
+		Units:   func(tier string) []mc.Unit { return append(units(tier), snapshotUnits(tier)...) },
 		Batch:   func(tier string) int { return 1 },
 		RunUnit: runUnit,
 		Replay:  replay,
-		Setup:   func(string) { kit.Quiet() },
+		Setup:   func(string) { kit.Quiet(); sk.InstallStatementGate() },
 		Rule: "unit = (start state, kinds of the blocks appended during the search, depth; finality tag and info updates per block rotate " +
 			"over the units); inside a unit E-BFS over all histories of the events {L1Block, Finalize, SyncerProcess, Tick, Tick with one " +
 			"failing dependency (4 kinds), ForeignInject (2 targets), L1Reorg(tip | first unfinalized pattern block; at most one; units with <= 3 pattern blocks)} up to the depth bound, each transition re-executed from scratch on a " +
